@@ -1,7 +1,7 @@
 (* C19: the witnesses of Witness19.v evaluated (vm_compute) on the model and judged by the oracle. *)
 From Coq Require Import NArith ZArith List Bool String.
 From F8 Require Import Sess.Bytes Sess.Msg Sess.Persist Sess.Session Sess.SimpleCodec Sess.Wire
-  C19.Run19 C19.Spec_C19 C19.Witness19 C19.DeliverProofs.
+  Sess.SendLemmas C19.Run19 C19.Spec_C19 C19.Witness19 C19.DeliverProofs C19.ResendWire.
 Import ListNotations.
 Local Open Scope N_scope.
 
@@ -151,4 +151,13 @@ Proof.
     split; [exact (facts_xxx m M1)|].
     split; [apply proc_eq; [exact K|exact stopped_xxx|exact L]|].
     exists ops_compid. exact N.
+Qed.
+
+(* the side conditions of high_continuous_wire hold for the witness schema and the witness session *)
+Lemma sc0_wire_ok :
+  wf_schema sc0 = true /\ knows_rr sc0 /\ wf_sess s_cont = true /\ s_closed s_cont = false /\ s_batch s_cont = [].
+Proof.
+  split; [vm_compute; reflexivity|]. split.
+  - unfold knows_rr. eexists; eexists; eexists. vm_compute. repeat split; reflexivity.
+  - vm_compute. repeat split; reflexivity.
 Qed.
